@@ -174,7 +174,12 @@ C07(e, m, X, vals, tau, mode) ==
         kind == m.kind
         s2(i) == RSumSeq(PMatV([j \in MemIdx(e, i) |-> X[i][j].s2]))
         D(i)  == RSumSeq(PMatV([j \in MemIdx(e, i) |-> Obs(e, i, j).mu -- Pre(e, i, j).mu]))
-        B(i)  == RSumSeq(PMatV([j \in MemIdx(e, i) |-> TolMu(mode, X[i][j]) ++ UlpSlack(mode, Obs(e, i, j).mu)]))
+        \* what floating point owes: the step itself to 1e-9 of ITS size (plus the kernels' stated noise), and the rounding of
+        \* adding it to the rating (4 ulp of the rating).  Not 1e-9 of the rating: for a settled player (sigma 1e-4 beta) that
+        \* is a thousand times the step, and the identity would say nothing (a step dropped as "too small to matter" - seed
+        \* k07 - passed).
+        B(i)  == RSumSeq(PMatV([j \in MemIdx(e, i) |-> (IF mode = "float" THEN X[i][j].tstep ELSE TolMu(mode, X[i][j])) ++ UlpSlack(mode, Obs(e, i, j).mu)
+                                                        ++ UlpSlack(mode, Pre(e, i, j).mu)]))
         TS2 == PMatV([i \in 1..n |-> s2(i)])
         Z  == RSumSeq(PMatV([i \in 1..n |-> D(i) // TS2[i]]))
         ZB == RSumSeq(PMatV([i \in 1..n |-> B(i) // TS2[i]]))
